@@ -122,11 +122,18 @@ void sim_yield(YKind k) {
     if (!t || !R.sched_on) return;
     if (++R.steps > R.step_budget) sim_die(98, "step budget exceeded (livelock or hang)");
     int y = t->yord++;
-    if (k == Y_MUTEX && t->ymutex.size() < 96) t->ymutex.push_back(y);
+    if (k == Y_MUTEX) {
+        t->ymutex_seen++;
+        if (t->ymutex.size() < 96) t->ymutex.push_back(y);
+        else { t->ymutex_lcg = t->ymutex_lcg * 6364136223846793005ull + 1442695040888963407ull; uint64_t j = (t->ymutex_lcg >> 33) % t->ymutex_seen; if (j < 96) t->ymutex[j] = y; }
+    }
     if (R.tasks.size() < 2) return;
-    if (k == Y_CALL) {
-        R.call_yields++;
-        for (auto* o : R.tasks) if (o->st == T_BLOCKED && o->parked_until >= 0 && R.call_yields >= o->parked_until) { o->st = T_RUNNABLE; o->parked_until = -1; o->waiting_on = nullptr; }
+    if (k == Y_CALL && t->ret_yield) {
+        R.call_yields++;      // counts RETURNED calls
+        Task* woken = nullptr;
+        for (auto* o : R.tasks) if (o->st == T_BLOCKED && o->parked_until >= 0 && R.call_yields >= o->parked_until) { o->st = T_RUNNABLE; o->parked_until = -1; o->waiting_on = nullptr; if (!woken) woken = o; }
+        // a long pre-emption ends exactly here: the parked task continues at once (otherwise the others would run on for as long as the base policy lets them)
+        if (woken && !R.guided && woken != t) { record_decision(t, y, k, woken->tid); R.switches[k]++; switch_to(t, woken); return; }
     }
     for (auto& pk : R.parks) if (pk.tid == t->tid && pk.op == t->cur_op && pk.y == y) {
         bool other = false; for (auto* o : R.tasks) if (o != t && o->st == T_RUNNABLE) other = true;
@@ -208,7 +215,7 @@ void task_finished(Task* t) {
 }
 
 void task_begin_op(Task* t, int op) {
-    t->cur_op = op; t->yord = 0; t->fs_nth.clear(); t->wmax_nth = -1; t->wmax_size = 0; t->ymutex.clear(); t->op_edge0 = t->edges; t->next_pre = 0;
+    t->cur_op = op; t->yord = 0; t->fs_nth.clear(); t->wmax_nth = -1; t->wmax_size = 0; t->ymutex.clear(); t->ymutex_seen = 0; t->ymutex_lcg = 1; t->op_edge0 = t->edges; t->next_pre = 0;
     while (t->pre_i < t->preempts.size() && t->preempts[t->pre_i].first < op) t->pre_i++;
     if (t->pre_i < t->preempts.size() && t->preempts[t->pre_i].first == op) t->next_pre = t->op_edge0 + t->preempts[t->pre_i].second + 1;
 }
